@@ -60,6 +60,17 @@ class Prop(PropBase):
                     b = " ".join(map(str, g2 + tg.DEFAULT_ATTR))
                     cs.append(Case("T %d ; we %s ; we %s ; we %s" % (bits, a, b, a), sweep="charset-pairs-on-the-wire",
                                    cfgs=[cfgs[(c1 * 19 + c2) % len(cfgs)]]))
+        # ... and every ordered TRIPLE (a designation that is skipped because of where the terminal came from two sets ago)
+        for c1 in tg.CHARSETS:
+            for c2 in tg.CHARSETS:
+                for c3 in tg.CHARSETS:
+                    if c1 == c2 or c2 == c3:
+                        continue
+                    for bits in (0, 16):
+                        gs = [[c] + (tg.utf8_bytes(0xE9 + k) if c == 18 else [0x61 + k, 0, 0]) for k, c in enumerate((c1, c2, c3))]
+                        els = [" ".join(map(str, g + tg.DEFAULT_ATTR)) for g in gs]
+                        cs.append(Case("T %d ; we %s ; we %s ; we %s" % (bits, els[0], els[1], els[2]), sweep="charset-triples-on-the-wire",
+                                       cfgs=[cfgs[(c1 * 361 + c2 * 19 + c3) % len(cfgs)]]))
         for _ in range(2000 if tier == "quick" else 20000):
             cs.append(Case("D 3 %d %d %d" % (rng.choice([37, rng.randrange(256)]), rng.randrange(256), rng.randrange(256)), oracle=False, tag="random-3byte"))
         return cs
